@@ -1,6 +1,10 @@
 package main
 
-import "math/rand/v2"
+import (
+	"math/rand/v2"
+
+	"gitee.com/xuesongtao/protoc-go-valid/valid"
+)
 
 var profWalk = walkProfile{name: "walk", o: defaultRuleOpts, maxDepth: 3, maxField: 5, maxRules: 4, pNested: 0.22, pOverride: 0.15, pTag: 0.1, pLocalFn: 0.15, pTopColl: 0.2}
 
@@ -46,7 +50,40 @@ func walkStream(p walkProfile, what string, q, t int) {
 	})
 }
 
+// walk-gfn: the global function table after a second round of SetCustomerValidFn calls made before any
+// validation: a custom name registered twice (the later registration wins), built-in names shadowed
+// globally (a table-dispatched rule, a size rule, and a walker-implemented name)
+var profGfn = withOpts(profWalk, func(p *walkProfile) {
+	p.name = "walk-gfn"
+	p.pOverride, p.pTag, p.pLocalFn = 0.3, 0.2, 0.3
+	p.o.pCustom, p.o.pUnknown = 0.3, 0.05
+	p.maxDepth = 2
+})
+
 func init() {
+	register(&Stream{
+		Name: "walk-gfn",
+		Rule: "as walk-rm, in a process whose global function table was extended before any validation: `gcustom` registered a second time (G4 replaces G1), the built-in names `idcard`, `le` and `phone` registered globally (G5, G6, G8). The whole error string is compared with the model run with that table. non-trivial: the call returned an error; distinct by request",
+		Size: map[string]int{"quick": 10000, "thorough": 200000},
+		Setup: func(tier string) {
+			for _, kv := range [][2]string{{"gcustom", "G4"}, {"idcard", "G5"}, {"le", "G6"}, {"phone", "G8"}} {
+				valid.SetCustomerValidFn(kv[0], markerFn(kv[1]))
+				globalFns[kv[0]] = kv[1]
+			}
+		},
+		Gen: func(r *rand.Rand, tier string) Case {
+			if chance(r, 0.3) {
+				switch r.IntN(3) {
+				case 0:
+					return flatVarCase(r, profGfn.o)
+				case 1:
+					return flatMapCase(r, profGfn.o)
+				}
+				return flatUrlCase(r, profGfn.o)
+			}
+			return walkerCase(r, profGfn)
+		},
+	})
 	walkStream(profWalk, "1-5 fields of every supported kind (scalars, slices, arrays, maps, pointers, nested structs, time.Time, interface{}, func), 0-4 rules per field from every rule family with custom messages, malformed, unknown, repeated and empty items; outer/typed rule sets, target tags, per-call functions; top-level struct, pointer(s), slices/arrays/maps of structs with nil elements, nil and non-struct inputs", 20000, 400000)
 	walkStream(profDeep, "type graphs nested to depth 6 through value, *, **, [], [n], map[string|int], with unmarked sub-objects, time fields, nil/zero/populated nodes at every level", 6000, 120000)
 	walkStream(profRM, "typed / unscoped / both / empty rule sets, non-default target tags, per-call and global functions, names defined in several tables", 10000, 200000)
